@@ -41,6 +41,22 @@ def parseParams? : List String → Option (Params × List String)
     pure (⟨pl, plb, nr, rmd, mdrt, tts, ttpb, af, b94⟩, rest)
   | _ => none
 
+def handleNext (rest : List String) : String :=
+  match parseParams? rest with
+  | some (p, newTime :: hdrs) =>
+    match newTime.toInt?, hdrs.mapM parseHdr? with
+    | some t, some hs =>
+      match calcNextRequiredDifficulty p hs t with
+      | some b => hex8 b
+      | none => "assert"
+    | _, _ => "bad-op"
+  | _ => "bad-op"
+
+def handleMtp (ts : List String) : String :=
+  match ts.mapM (fun (s : String) => s.toInt?) with
+  | some (t :: ts) => toString (calcPastMedianTime ((t :: ts).map (fun t => ⟨t, 0⟩)))
+  | _ => "bad-op"
+
 def handle : List String → String
   | ["c2b", c] => match hexToNat? c with
     | some c => signedHex (compactToBig c)
@@ -59,20 +75,57 @@ def handle : List String → String
       match checkProofOfWork bits (BV.Sha256.hash2List hd) l with
       | .ok => "ok" | .badTarget => "badTarget" | .highHash => "highHash"
     | _, _ => "bad-op"
-  | "next" :: rest =>
+  | ["h2b", h] => match hexToList? h with
+    | some bs => if bs.length ≠ 32 then "bad-op" else natToHex (hashToBig bs)
+    | none => "bad-op"
+  | "hctx" :: rest =>
     match parseParams? rest with
-    | some (p, newTime :: hdrs) =>
-      match newTime.toInt?, hdrs.mapM parseHdr? with
-      | some t, some hs =>
-        match calcNextRequiredDifficulty p hs t with
-        | some b => hex8 b
-        | none => "assert"
+    | some (p, fast :: _skipcp :: _impl :: hb :: ht :: hdrs) =>
+      match parseBool? fast, hexToNat? hb, ht.toInt?, hdrs.mapM parseHdr? with
+      | some fast, some hb, some ht, some hs =>
+        match checkBlockHeaderContext p hs ⟨ht, hb⟩ fast with
+        | .ok => "ok" | .badDifficulty => "badDifficulty" | .timeTooOld => "timeTooOld"
+        | .timeWarp => "timeWarp" | .assert => "assert" | .panic => "panic"
+      | _, _, _, _ => "bad-op"
+    | _ => "bad-op"
+  | ["hsan", header, lim, nopow, nsec, adj] =>
+    match hexToList? header, hexToNat? lim, parseBool? nopow, nsec.toInt?, adj.toInt? with
+    | some hd, some l, some np, some ns, some adj =>
+      if hd.length ≠ 80 then "bad-op" else
+      let bits := leToNat ((hd.drop 72).take 4)
+      let sec : Int := leToNat ((hd.drop 68).take 4)
+      match checkBlockHeaderSanity bits (BV.Sha256.hash2List hd) l np sec ns adj with
+      | .ok => "ok" | .badTarget => "badTarget" | .highHash => "highHash"
+      | .invalidTime => "invalidTime" | .timeTooNew => "timeTooNew"
+    | _, _, _, _, _ => "bad-op"
+  | "worksum" :: bs =>
+    match bs.mapM hexToNat? with
+    | some (b :: bs) => natToHex (workSum ((b :: bs).map (fun b => ⟨0, b⟩)))
+    | _ => "bad-op"
+  | "easiest" :: rest =>
+    match parseParams? rest with
+    | some (p, [bits, d]) =>
+      match hexToNat? bits, d.toInt? with
+      | some b, some d => hex8 (calcEasiestDifficulty p b d)
       | _, _ => "bad-op"
     | _ => "bad-op"
-  | "mtp" :: ts =>
-    match ts.mapM (fun (s : String) => s.toInt?) with
-    | some (t :: ts) => toString (calcPastMedianTime ((t :: ts).map (fun t => ⟨t, 0⟩)))
-    | _ => "bad-op"
+  | "wpar" :: cs =>
+    match cs.mapM hexToNat? with
+    | some cs => " ".intercalate (cs.map (fun c =>
+        natToHex (calcWork c) ++ "/" ++ hex8 (bigToCompact (compactToBig c))))
+    | none => "bad-op"
+  | ["ctxparams", tts, ttpb, af] =>
+    match tts.toInt?, ttpb.toInt?, af.toInt? with
+    | some tts, some ttpb, some af =>
+      let p : Params := ⟨2^255 - 1, 0x207fffff, true, false, 0, tts, ttpb, af, false⟩
+      match calcNextRequiredDifficulty p [⟨0, 0x207fffff⟩] 1 with
+      | some b => s!"{p.blocksPerRetarget} {p.minSpan} {p.maxSpan} {hex8 b}"
+      | none => "assert"
+    | _, _, _ => "bad-op"
+  | "nextn" :: rest => handleNext rest
+  | "mtpn" :: ts => handleMtp ts
+  | "next" :: rest => handleNext rest
+  | "mtp" :: ts => handleMtp ts
   | ["warp", h, bpr, ht, pt] =>
     match h.toInt?, bpr.toInt?, ht.toInt?, pt.toInt? with
     | some h, some bpr, some ht, some pt => if assertNoTimeWarp h bpr ht pt then "1" else "0"
